@@ -54,12 +54,9 @@ COL6 = [" ", "&", "1", "9", "+", "$", ".", "*", "x", "0"]
 FREE_STMTS = ["program p", "x = 1", "subroutine s(a)", "module m", "use m", "integer :: i", "end", "if (a) then", "do i=1,2", "real x"]
 
 
-def c05_rules(m):
-    out = []
-    # ---------------------------------------------------------------- R1 detector
-    r = RuleResult("C05.R1", "the form detector votes free exactly for a statement starting in columns 1-5 or a trailing '&', "
-                             "never for a label field, a comment line or a fixed-form continuation line")
-    r.floor = 3
+def detector_vote(m, r):
+    """(vote(text) -> bool, function, voting test) for one iteration of the form detector's voting loop, interpreted from the AST;
+    None (with the reason recorded on r) when the anchors are gone."""
     f = m.need_func(SI, "get_source_info_str")
     ev = evaluator(m, SI)
     vote_if = None
@@ -69,43 +66,78 @@ def c05_rules(m):
             vote_if = n
     if vote_if is None:
         r.error("get_source_info_str: the test applying _FREE_FORMAT_START was not found (anchor vanished)")
+        return None
+    loop = None
+    for n in A.body_nodes(f.node):
+        if isinstance(n, ast.While) and any(x is vote_if for x in ast.walk(n)):
+            loop = n
+    if loop is None:
+        r.error("get_source_info_str: the voting loop was not found")
+        return None
+    flag = None
+    for n in ast.walk(loop):
+        if isinstance(n, ast.Assign) and isinstance(n.value, ast.Constant) and n.value.value is True:
+            flag = A.text(n.targets[0])
+    if flag is None:
+        r.error("get_source_info_str: the free-form flag set by the voting loop was not found")
+        return None
+
+    def vote(text):
+        # one iteration of the voting loop on one physical line, interpreted from the AST
+        env = {"lines": [text], flag: False, "line_tally": 10000}
+        try:
+            ev.block(loop.body, env)
+        except PE._Break:
+            pass
+        except PE._Continue:
+            pass
+        return bool(env[flag])
+    return vote, f, vote_if
+
+
+def c14_detector_rule(m, rid):
+    import json
+    import os
+    r = RuleResult(rid, "the source-form detector does not let a preprocessor line vote: inserting '#...' lines into fixed-form source "
+                        "does not turn it into free form (one iteration of the voting loop interpreted on every directive sample)")
+    r.floor = 20
+    got = detector_vote(m, r)
+    if got is None:
+        return r
+    vote, f, vote_if = got
+    kinds = json.load(open(os.path.join(os.path.dirname(os.path.dirname(os.path.abspath(__file__))), "oracle", "cpp.json")))["kinds"]
+    bad = None
+    try:
+        for kind in kinds:
+            for s_ in kind["samples"]:
+                for text in (s_, "  " + s_.lstrip()):
+                    if text.rstrip().endswith("&"):
+                        continue
+                    r.instances += 1
+                    v = vote(text)
+                    r.ob(not v, "%r does not vote" % text if r.obligations % 10 == 0 else None)
+                    if v and bad is None:
+                        bad = text
+    except PE.Unsupported as err:
+        r.error("get_source_info_str: cannot interpret the voting expression statically (%s)" % err)
+        return r
+    if bad is not None:
+        r.fail("vote|cpp", "the form detector votes free form for the preprocessor line %r: a fixed-form file that contains such a line is "
+               "read as free form, so its comment and continuation lines no longer parse" % bad, m.loc(f, vote_if))
+    return r
+
+
+def c05_rules(m):
+    out = []
+    # ---------------------------------------------------------------- R1 detector
+    r = RuleResult("C05.R1", "the form detector votes free exactly for a statement starting in columns 1-5 or a trailing '&', "
+                             "never for a label field, a comment line or a fixed-form continuation line")
+    r.floor = 3
+    got = detector_vote(m, r)
+    if got is None:
         out.append(r)
     else:
-        guards = []
-        x = vote_if
-        while x in P and P[x] is not f.node:
-            p = P[x]
-            if isinstance(p, ast.If) and x in p.body:
-                guards.append(p.test)
-            x = p
-        loop = None
-        for n in A.body_nodes(f.node):
-            if isinstance(n, ast.While) and any(x is vote_if for x in ast.walk(n)):
-                loop = n
-        if loop is None:
-            r.error("get_source_info_str: the voting loop was not found")
-            out.append(r)
-            return out
-        flag = None
-        for n in ast.walk(loop):
-            if isinstance(n, ast.Assign) and isinstance(n.value, ast.Constant) and n.value.value is True:
-                flag = A.text(n.targets[0])
-        if flag is None:
-            r.error("get_source_info_str: the free-form flag set by the voting loop was not found")
-            out.append(r)
-            return out
-
-        def vote(text):
-            # one iteration of the voting loop on one physical line, interpreted from the AST
-            env = {"lines": [text], flag: False, "line_tally": 10000}
-            try:
-                ev.block(loop.body, env)
-            except PE._Break:
-                pass
-            except PE._Continue:
-                pass
-            return bool(env[flag])
-
+        vote, f, vote_if = got
         try:
             cases = []
             for lab in LABELS5:
